@@ -10,7 +10,9 @@ META = dict(
          "(connect_ex to a listening server answers 0 at once; clock default one timeout per call, alternatives T/2, 0) and "
          "'realistic' (the first connect_ex on a fresh socket answers EINPROGRESS and the next one completes, as a "
          "non-blocking connect does; clock default T/4 per call, alternatives T, 0 and 10T for long uptimes/outages; costs one "
-         "deviation). Before each of the first H service calls the environment chooses: nothing / toggle the server (going "
+         "deviation); 'steady' = realistic, but the good phase has no clock jump (+T/4 per call only, liveness window 8 calls), "
+         "so a cut-off that happens within one timeout of the last timer restart is serviced while the timer still runs. "
+         "Before each of the first H service calls the environment chooses: nothing / toggle the server (going "
          "down also kills its connections) / close the current connection from the server side; the clock advance; and during "
          "the call connect_ex may answer EINPROGRESS, ECONNREFUSED or success out of turn and an idle recv may answer "
          "ECONNRESET. All schedules with <= 3 deviations (H=6, quick) / <= 4 (H=9, thorough) are run; then the environment "
@@ -35,6 +37,10 @@ SUBJECTS = ("Client", "Patron", "TcpClientStack")
 BOUNDS = dict(quick=dict(dev=3, H=6), thorough=dict(dev=4, H=9))
 CLOSING = 6
 WINDOW = 4
+# variant "steady": realistic connects, and the good phase has NO clock jump: +T/4 per call only, so a
+# reconnect timer restarted less than T ago is still running when the cut-off is first serviced
+STEADY_WINDOW = 8          # ceil(T / (T/4)) calls for the timer to run out + 4
+STEADY_CLOSING = 10
 
 FSM = None
 M = None
@@ -177,14 +183,18 @@ def where_of(ex):
 
 
 def execute(ch, subject, reconnectable, up0, H, part, states):
-    realistic = ch.choose(2, "connect-variant", 0, 1) == 1
+    variant = ch.choose(3, "connect-variant", 0, 1)      # 0 immediate, 1 realistic (+T jump), 2 steady (no jump)
+    realistic = variant >= 1
+    steady = variant == 2
+    closing_calls = STEADY_CLOSING if steady else CLOSING
+    window = STEADY_WINDOW if steady else WINDOW
     pol = Policy(ch, realistic)
     adv = ADV_REAL if realistic else ADV
     fn = net.FakeNet(policy=pol)
     FSM.net = fn
     ck = net.clock()
     env = Env(fn, up0)
-    sched = ["connect=realistic"] if realistic else []
+    sched = ["connect=steady"] if steady else (["connect=realistic"] if realistic else [])
     faulty = net.Menu(connect=(errno.EINPROGRESS, errno.ECONNREFUSED), recv_idle_errnos=(errno.ECONNRESET,))
     fn.menu = faulty
     try:
@@ -195,7 +205,7 @@ def execute(ch, subject, reconnectable, up0, H, part, states):
     cut_at = None            # number of sockets in existence when a cut off was first seen
     not_live_since = None
     why = None
-    total = H + CLOSING
+    total = H + closing_calls
     for step in range(total):
         closing = step >= H
         if step == H:        # from now on the environment is good
@@ -215,7 +225,8 @@ def execute(ch, subject, reconnectable, up0, H, part, states):
             dt = adv[ch.choose(len(adv), "dt", 0, 1)]
         else:
             # immediate: one timeout per call; realistic: the timeout elapses once, then 4 calls per timeout
-            ev, dt = "-", (T if (not realistic or step == H) else T / 4)
+            # steady: never a jump, 4 calls per timeout
+            ev, dt = "-", (T if (not realistic or (step == H and not steady)) else T / 4)
         ck.advance(dt)
         mark = len(fn.log)
         try:
@@ -234,7 +245,7 @@ def execute(ch, subject, reconnectable, up0, H, part, states):
         why = live(subject, obj, h)
         if why is None:
             was_connected = True
-        st = (subject, reconnectable, realistic, bool(h.connected), bool(h.cutoff), h.cs is None,
+        st = (subject, reconnectable, variant, bool(h.connected), bool(h.cutoff), h.cs is None,
               None if h.cs is None else raw_of(h.cs).state, env.listening, env.has_open(),
               round(h.timer.remaining, 3), closing, why is None)
         states.add(hash(st))
@@ -242,11 +253,12 @@ def execute(ch, subject, reconnectable, up0, H, part, states):
             cut_at = len(fn.sockets)
         if closing:
             k = step - H + 1          # number of good calls made so far
-            if reconnectable and k >= WINDOW and why is not None:
+            if reconnectable and k >= window and why is not None:
                 return ("not-reconnected",
                         "%d service calls into a good environment (server listening, %s) the client is still not "
                         "connected to a live socket: %s"
-                        % (k, "connect_ex answers EINPROGRESS then 0, clock +%g then +%g per call" % (T, T / 4) if realistic
+                        % (k, "connect_ex answers EINPROGRESS then 0, clock +%g per call, no jump" % (T / 4) if steady
+                           else "connect_ex answers EINPROGRESS then 0, clock +%g then +%g per call" % (T, T / 4) if realistic
                            else "connects succeed at once, clock +%g per call" % T, why), sched, fn)
     if not reconnectable and cut_at is not None:
         made = [s.name for s in fn.sockets[cut_at:] if not s.name.startswith("listener")]
@@ -255,7 +267,7 @@ def execute(ch, subject, reconnectable, up0, H, part, states):
             return ("reopened-after-cutoff", "not reconnectable, cut off, yet %d new socket(s) were constructed "
                     "afterwards: %s" % (len(made), made), sched, fn)
     part.outcome("%s %s %s: %s" % (subject, "reconnectable" if reconnectable else "plain",
-                                   "realistic" if realistic else "immediate",
+                                   ("immediate", "realistic", "steady")[variant],
                                    "live at end" if why is None else "not connected at end"))
     return None
 
@@ -353,10 +365,11 @@ def run():
         "a 'service call' of a bare Client is serviceConnect()+serviceReceives()+serviceTxes(); Patron and TcpClientStack "
         "are serviced with serviceAll()",
         "TcpClientStack has no constructor parameter for reconnectable; the harness sets stack.handler.reconnectable",
-        "liveness window: %d service calls after the environment turned good, with the clock advancing one timeout per call" % WINDOW,
+        "liveness window: %d service calls after the environment turned good and the timeout has elapsed (variants immediate / "
+        "realistic); variant steady has no clock jump, so the window is ceil(T/(T/4)) + 4 = %d calls" % (WINDOW, STEADY_WINDOW),
         "states = distinct (flags, socket state, server state, timer remaining) snapshots after a service call",
     ]
-    ck.coverage_extra = dict(deviation_bound=b["dev"], horizon=b["H"], closing_calls=CLOSING, window=WINDOW,
+    ck.coverage_extra = dict(deviation_bound=b["dev"], horizon=b["H"], closing_calls=CLOSING, window=WINDOW, steady_closing_calls=STEADY_CLOSING, steady_window=STEADY_WINDOW,
                              configurations=len(cfgs))
     return ck.finish(
         rule="{Client, Patron, TcpClientStack} x {reconnectable, not} x {server initially up, down}: every schedule of %d "
